@@ -88,9 +88,11 @@ pub const NAUTH: usize = 6;
 /// payload words of a Val
 pub const VALW: usize = 4;
 /// hash oracle table
-#[cfg(feature = "nh12")]
+#[cfg(feature = "nh24")]
+pub const NH: usize = 24;
+#[cfg(all(feature = "nh12", not(feature = "nh24")))]
 pub const NH: usize = 12;
-#[cfg(not(feature = "nh12"))]
+#[cfg(not(any(feature = "nh12", feature = "nh24")))]
 pub const NH: usize = 6;
 #[cfg(feature = "hw32")]
 pub const HW: usize = 32;
